@@ -968,9 +968,15 @@ fn gen_prim(t: &mut Tape, vr: &[u8; 2], multi_ok: bool, cs: u8) -> Prim {
         }
         _ => {
             let mut out = Vec::new();
+            // in a multi-valued text value single values may be empty (leading, inner or trailing), not all of them
+            let hollow = n >= 2 && t.chance(1, 5);
+            let keep = if hollow { t.below(n as u32) as usize } else { 0 };
             for i in 0..n {
                 if i > 0 {
                     out.push(b'\\');
+                }
+                if hollow && i != keep && t.chance(1, 2) {
+                    continue;
                 }
                 out.extend_from_slice(&one_text(t, vr, cs));
             }
